@@ -23,14 +23,52 @@ class V:
         self.name, self.file, self.old, self.new = name, file, old, new
         self.expect, self.rule, self.count, self.note = expect, rule, count, note
         self.also = also or []  # further (file, old, new) edits of the same variant
+        self.patch = None       # or: a unified diff applied with `git apply` (confirmed seeds, neutral refactorings)
 
 
 def variants_for(pid: str) -> List[V]:
     try:
         m = importlib.import_module("qsa.variants.%s" % pid.lower())
+        out = list(m.VARIANTS)
     except ImportError:
-        return []
-    return list(m.VARIANTS)
+        out = []
+    return out + patch_variants(pid)
+
+
+def patch_variants(pid: str) -> List[V]:
+    """The confirmed breaking changes kept under /verif/seeded (must fire for their own property) and the behaviour-preserving
+    refactorings kept under /verif/neutral (must leave every property as quiet as the unchanged tree), as unified diffs."""
+    import glob
+    import json
+    from . import VERIF
+    out = []
+    for d in sorted(glob.glob(os.path.join(VERIF, "seeded", "*"))):
+        pf, mf = os.path.join(d, "patch.diff"), os.path.join(d, "meta.json")
+        if not (os.path.isfile(pf) and os.path.isfile(mf)):
+            continue
+        try:
+            with open(mf) as fh:
+                meta = json.load(fh)
+        except ValueError:
+            continue
+        if meta.get("property") == pid:
+            v = V("seeded/" + os.path.basename(d), None, None, None, expect="fire")
+            v.patch = pf
+            out.append(v)
+    for pf in sorted(glob.glob(os.path.join(VERIF, "neutral", "*", "*.diff"))):
+        v = V("neutral/%s/%s" % (os.path.basename(os.path.dirname(pf)), os.path.basename(pf)), None, None, None, expect="silent")
+        v.patch = pf
+        out.append(v)
+    return out
+
+
+def _apply_patch(root: str, patch: str) -> bool:
+    import subprocess
+    try:
+        r = subprocess.run(["git", "apply", "--whitespace=nowarn", patch], cwd=root, capture_output=True, text=True, timeout=60)
+    except (OSError, subprocess.SubprocessError):
+        return False
+    return r.returncode == 0
 
 
 def _apply(root: str, file: str, old: str, new: str, count: int) -> bool:
@@ -55,17 +93,21 @@ def _run_one(args):
     try:
         shutil.copytree(os.path.join(repo, "quara"), os.path.join(tmp, "quara"),
                         ignore=shutil.ignore_patterns("__pycache__", "*.pyc"))
-        ok = _apply(tmp, v.file, v.old, v.new, v.count)
-        for f2, o2, n2 in v.also:
-            ok = ok and _apply(tmp, f2, o2, n2, 1)
-        if not ok:
-            return (v.name, v.expect, "stale", "")
-        import ast
-        try:
-            with open(os.path.join(tmp, v.file), encoding="utf-8") as fh:
-                ast.parse(fh.read())
-        except SyntaxError as e:
-            return (v.name, v.expect, "broken-variant", "does not parse: %s" % e)
+        if v.patch:
+            if not _apply_patch(tmp, v.patch):
+                return (v.name, v.expect, "stale", "")
+        else:
+            ok = _apply(tmp, v.file, v.old, v.new, v.count)
+            for f2, o2, n2 in v.also:
+                ok = ok and _apply(tmp, f2, o2, n2, 1)
+            if not ok:
+                return (v.name, v.expect, "stale", "")
+            import ast
+            try:
+                with open(os.path.join(tmp, v.file), encoding="utf-8") as fh:
+                    ast.parse(fh.read())
+            except SyntaxError as e:
+                return (v.name, v.expect, "broken-variant", "does not parse: %s" % e)
         code, rep = run_property(pid, tmp, "quick", write=False, quiet=True, selftest=False)
         new_viol = [o for o in rep.obs if o.status == "VIOLATION" and o.known is None and o.key() not in base_viol]
         und = [e for e in rep.errors]
